@@ -57,8 +57,15 @@ def str_method(E, m, args, kwargs):
         return VI(z3.simplify(z3.IndexOf(s, sub, st)))
     if m == 'rfind':
         sub = E.as_z3_str(rest[0])
-        if len(rest) > 1:
-            raise Unsupported('str.rfind with start')
+        if len(rest) > 2:
+            raise Unsupported('str.rfind with end')
+        if len(rest) == 2:
+            # s.rfind(sub, start): last occurrence at or after start (python clamps start like a slice index)
+            n = z3.Length(s)
+            start = E.as_z3_int(rest[1])
+            st = z3.If(start < 0, z3.If(start + n < 0, I(0), start + n), z3.If(start > n, n, start))
+            r = z3.LastIndexOf(z3.SubString(s, st, n - st), sub)
+            return VI(z3.If(r < 0, I(-1), r + st))
         return VI(z3.LastIndexOf(s, sub))
     if m == 'startswith':
         return ops._wrapb(z3.PrefixOf(E.as_z3_str(rest[0]), s))
